@@ -7,6 +7,7 @@ import (
 	"math"
 	"os"
 	"path/filepath"
+	"regexp"
 	"sort"
 	"strings"
 
@@ -195,8 +196,14 @@ func c13ReadAll(gd dom.ContainerBuilder) (problems []string) {
 		if strings.Join(found, "\x00") != strings.Join(refKeys, "\x00") {
 			problems = append(problems, fmt.Sprintf("Search(any) = %q, walk shows %q", found, refKeys))
 		}
-		// Lookup of every flattened path
+		// Lookup of every flattened path — where a path names one position: keys over [A-Za-z0-9_-] (the property's
+		// domain).  A history whose templated path renders the text of a container (`map[b: z_9:0.5]`) leaves keys
+		// holding `.` and `[`: the flattened path of such a document does not parse back into its keys.
+		safe := c13KeysPathSafe(w)
 		for _, k := range refKeys {
+			if !safe {
+				break
+			}
 			n := gd.Lookup(k)
 			if n == nil || !n.IsLeaf() || canon(scalarWire(n.(dom.Leaf).Value())) != canon(ref[k].V) {
 				problems = append(problems, fmt.Sprintf("Lookup(%s) does not give the leaf the walk shows (%s)", k, mustJSON(ref[k].V)))
@@ -220,6 +227,29 @@ func c13ReadAll(gd dom.ContainerBuilder) (problems []string) {
 		problems = append(problems, "panic while reading: "+txt)
 	}
 	return problems
+}
+
+var c13SafeKeyRe = regexp.MustCompile(`^[A-Za-z0-9_-]+$`)
+
+// c13KeysPathSafe: every key of the document is over [A-Za-z0-9_-].
+func c13KeysPathSafe(w W) bool {
+	switch x := w.(type) {
+	case []any:
+		for _, e := range x {
+			if !c13KeysPathSafe(e) {
+				return false
+			}
+		}
+	case map[string]any:
+		if cm, ok := x["m"].(map[string]any); ok {
+			for k, e := range cm {
+				if !c13SafeKeyRe.MatchString(k) || !c13KeysPathSafe(e) {
+					return false
+				}
+			}
+		}
+	}
+	return true
 }
 
 // ------------------------------------------------------------------ kind "large"
